@@ -358,11 +358,11 @@ class World:
         return self.ctl[e]
 
     def call(self, e, fn, *a, **k):
-        self.cur = e
+        prev, self.cur = self.cur, e          # (nesting-safe: the main_loop harness answers for the peer from inside a send)
         try:
             return fn(*a, **k)
         finally:
-            self.cur = None
+            self.cur = prev
 
     def guarded(self, e, name, fn, *a):
         """Call an entry point; an exception leaving it is recorded (and re-raised as Escape)."""
